@@ -30,6 +30,14 @@ def regmap : Handler := fun j => do
   let sw ← nat (← field j "sw")
   match kind with
   | "alu" => return jRegMap (regMapAlu cfg) (aluFieldNames cfg) ["launch_streamer", "launch_alu"]
+  | "gemmx_config" =>
+    let ss ← listOf (fun x => do
+      match (← arr x).toList with
+      | [t, d] => return ((← nat t), (← nat d))
+      | _ => throw "bad streamer config") (← field j "streamers")
+    match gemmxFromConfig ss with
+    | some c => return jRegMap (regMapGemmx c n) (gemmxFieldNames c n) ["launch_streamer", "launch_gemmx"]
+    | none => return Json.mkObj [("raised", Json.str "IndexError")]
   | "gemmx" => return jRegMap (regMapGemmx cfg n) (gemmxFieldNames cfg n) ["launch_streamer", "launch_gemmx"]
   | "phs" => return jRegMap (regMapPhs cfg sw) (phsFieldNames cfg sw) ["launch_streamer", "launch_alu"]
   | "xdma" => return jRegMap (regMapXdma cfg) (xdmaFieldNames cfg) ["launch_start"]
@@ -126,7 +134,7 @@ def jRVal : RVal → Json
 
 def jRStmt : RStmt → Json
   | .const0 => Json.arr #[Json.str "const0"]
-  | .insn f a b => Json.arr #[Json.str "insn", jNat f, jRVal a, jRVal b]
+  | .insn _ f a b => Json.arr #[Json.str "insn", jNat f, jRVal a, jRVal b]
 
 /-- args: {"decl": [[name, funct7]…], "ps": [[name, var]…], "prev": null | [[name, var]…]} -/
 def roccSetupH : Handler := fun j => do
